@@ -223,10 +223,11 @@ SHARED = {
     'C04': ['version_word', 'permutation_word', 'descent', 'writers_dirty', 'structure', 'names', 'gc_safety'],
     'C05': ['version_word', 'descent', 'writers_dirty'],
     'C06': ['version_word', 'descent'],
-    'C07': ['sessions'],
+    'C07': ['sessions', 'value_words'],
     'C10': ['version_word', 'permutation_word', 'descent', 'key_order', 'structure', 'gc_safety'],
     'C13': ['writers_revalidate', 'key_order'],
     'C15': ['gc_safety'],
+    'C19': ['key_order'],
     'C11': ['reclamation'],
 }
 
